@@ -51,6 +51,9 @@ type CaseIn struct {
 	RPF      int         `json:"rpf"`      // rowsNumPerFragment property of the reader
 	Probes   [][2]int    `json:"probes"`   // extra (start,end) fragment ranges for MayBeInRange
 	Tag      string      `json:"tag,omitempty"`
+	// WriterSort: the rows are handed to record.SortHelper.SortForColumnStore (the memtable's flush sort) before Build,
+	// instead of being sorted by the harness in the order in which the index reader interprets keys
+	WriterSort bool `json:"writersort,omitempty"`
 }
 
 type Rect struct {
@@ -248,6 +251,26 @@ func appendVal(cv *record.ColVal, ty string, v tval) {
 	}
 }
 
+func readVal(cv *record.ColVal, ty string, row int) tval {
+	if cv.IsNil(row) {
+		return tval{null: true}
+	}
+	switch ty {
+	case "int":
+		v, _ := cv.IntegerValue(row)
+		return tval{i: v}
+	case "float":
+		v, _ := cv.FloatValue(row)
+		return tval{f: v}
+	case "string":
+		b, _ := cv.BytesUnsafe(row)
+		return tval{s: string(b)}
+	default:
+		v, _ := cv.BooleanValue(row)
+		return tval{b: v}
+	}
+}
+
 func keyName(i int) string { return "k" + strconv.Itoa(i) }
 
 // ---------------------------------------------------------------------------------------------
@@ -287,6 +310,24 @@ func newWorld(in *CaseIn) *world {
 		}
 		appendVal(w.src.Column(w.nk), "int", r[w.nk])
 		w.src.Column(w.nk + 1).AppendInteger(int64(1000 + ri))
+	}
+	if in.WriterSort {
+		var order []record.PrimaryKey
+		for c := 0; c < w.nk; c++ {
+			order = append(order, record.PrimaryKey{Key: keyName(c), Type: int32(fieldType(in.Types[c]))})
+		}
+		hlp := record.NewSortHelper()
+		w.src = hlp.SortForColumnStore(w.src, order, false, 0)
+		// read the rows back in the writer's order
+		for ri := range w.rows {
+			for c := 0; c <= w.nk; c++ {
+				ty := "int"
+				if c < w.nk {
+					ty = in.Types[c]
+				}
+				w.rows[ri][c] = readVal(w.src.Column(c), ty, ri)
+			}
+		}
 	}
 	acc := 0
 	for j, s := range in.Sizes {
@@ -1221,6 +1262,10 @@ func main() {
 			}
 		}
 		textMode = false
+		if i%9 == 5 && in.Tag == "" {
+			in.WriterSort = true
+			in.Tag = "wsort"
+		}
 		if i%25 == 24 && in.Tag == "" {
 			in = genSpecial(r, in)
 		}
